@@ -63,6 +63,16 @@ CHECKS = {
                  "every sample within a derived tolerance (0.01 sample of timing error) of the sum-of-sinusoids model at INTEGER sample index k, phases unchanged, |h| <= sqrt(L), zero Doppler static."),
         "note": "Trusted: the 4-line model; the tolerance argument in DESIGN.md section 4 (C14). Phases are snapshotted from the private _phi_l/_psi_l, which the property itself names.",
     },
+    "C03": {
+        "engine": "simkit", "level": "exploration", "design_ref": "DESIGN.md section 4 (C03)",
+        "technique": "deterministic simulation of transmission histories on one channel object: seeded scheduler of time/frequency-domain transmissions, direction switches and path-loss changes, all fading RNGs seeded from the plan, dense double-loop convolution / per-block DFT reference model applied to the response reported after each transmission",
+        "text": ("Seeded exploration of 2-15 consecutive operations on one (single- or multi-user, SISO or MIMO) TDL channel object whose fading evolves between transmissions. After EVERY "
+                 "transmission the impulse response reported for that transmission is fed to an independent dense reference (double loop in time, per-block DFT in frequency) and must "
+                 "reproduce that output (1e-9), with the right length and one response sample per input sample / block; the discretised profile must have unique sorted integer delays "
+                 "and merged powers summing to one. Honest scope: most of this property is a function of its inputs; the simulator contributes the history (stale response, direction "
+                 "switch and path-loss change between transmissions)."),
+        "note": "Trusted: the reference loops (numpy einsum/fft). Convention: response sample j applies to input sample j.",
+    },
 }
 
 _PENDING = ["C03", "C06", "C08", "C10", "C13", "C14", "C15"]
